@@ -117,6 +117,75 @@ func (s *RecStore) ListDirectoryPrefixedEntries(ctx context.Context, dir util.Fu
 	return s.FilerStore.ListDirectoryPrefixedEntries(ctx, dir, start, incl, limit, prefix, fn)
 }
 
+// ---------- filer-facing call log (what the gateway asks the filer to do) ----------
+
+// FilerCall is one request the filer received: a gRPC call (Method = the RPC
+// name, Dir/Name = the request's Directory and Name / Entry.Name) or an HTTP
+// request (Method = "HTTP GET" ..., Dir = r.URL.Path exactly as the filer's
+// listener decoded it, before the ServeMux canonicalises it; Name = RawQuery).
+type FilerCall struct {
+	Method    string
+	Dir       string
+	Name      string
+	Recursive bool // DeleteEntry.IsRecursive
+	IsDir     bool // CreateEntry / UpdateEntry: Entry.IsDirectory
+}
+
+type callLog struct {
+	mu  sync.Mutex
+	log []FilerCall
+}
+
+func (l *callLog) add(c FilerCall) {
+	l.mu.Lock()
+	l.log = append(l.log, c)
+	l.mu.Unlock()
+}
+
+func (l *callLog) take() []FilerCall {
+	l.mu.Lock()
+	defer l.mu.Unlock()
+	x := l.log
+	l.log = nil
+	return x
+}
+
+func (l *callLog) recGrpc(method string, req interface{}) {
+	i := strings.LastIndex(method, "/")
+	c := FilerCall{Method: method[i+1:]}
+	switch r := req.(type) {
+	case *filer_pb.LookupDirectoryEntryRequest:
+		c.Dir, c.Name = r.Directory, r.Name
+	case *filer_pb.ListEntriesRequest:
+		c.Dir, c.Name = r.Directory, ""
+	case *filer_pb.CreateEntryRequest:
+		c.Dir, c.Name, c.IsDir = r.Directory, r.Entry.GetName(), r.Entry.GetIsDirectory()
+	case *filer_pb.UpdateEntryRequest:
+		c.Dir, c.Name, c.IsDir = r.Directory, r.Entry.GetName(), r.Entry.GetIsDirectory()
+	case *filer_pb.DeleteEntryRequest:
+		c.Dir, c.Name, c.Recursive = r.Directory, r.Name, r.IsRecursive
+	case *filer_pb.AtomicRenameEntryRequest:
+		c.Dir, c.Name = r.OldDirectory+"/"+r.OldName, r.NewDirectory+"/"+r.NewName
+	}
+	l.add(c)
+}
+
+type recStream struct {
+	grpc.ServerStream
+	l      *callLog
+	method string
+	done   bool
+}
+
+func (s *recStream) RecvMsg(m interface{}) error {
+	err := s.ServerStream.RecvMsg(m)
+	if err == nil && !s.done {
+		s.done = true
+		s.l.recGrpc(s.method, m)
+	}
+	return err
+}
+
 // ---------- fake master ----------
 
 // FakeMaster answers the few master RPCs a filer without volume servers needs.
@@ -198,6 +267,7 @@ type Env struct {
 	FilerGrpcAddr string           // host:port
 	S3            *s3api.S3ApiServer
 	Router        *mux.Router // the S3 gateway's router
+	calls         callLog
 	masterSrv     *grpc.Server
 	filerSrv      *grpc.Server
 	ctx           context.Context
@@ -258,7 +328,10 @@ func New(opt Options) *Env {
 	// filer HTTP: a real ServeMux in front of filerHandler, as `weed filer` does
 	smux := http.NewServeMux()
 	e.FilerServer.VerifS3RegisterHTTP(smux)
-	e.FilerHTTP = httptest.NewServer(smux)
+	e.FilerHTTP = httptest.NewServer(http.HandlerFunc(func(w http.ResponseWriter, r *http.Request) {
+		e.calls.add(FilerCall{Method: "HTTP " + r.Method, Dir: r.URL.Path, Name: r.URL.RawQuery})
+		smux.ServeHTTP(w, r)
+	}))
 	e.FilerHTTPAddr = strings.TrimPrefix(e.FilerHTTP.URL, "http://")
 
 	// filer gRPC (the S3 gateway takes the gRPC address as an explicit option, so
@@ -266,7 +339,14 @@ func New(opt Options) *Env {
 	glis, err := net.Listen("tcp", "127.0.0.1:0")
 	must(err)
 	e.FilerGrpcAddr = glis.Addr().String()
-	e.filerSrv = grpc.NewServer()
+	e.filerSrv = grpc.NewServer(
+		grpc.UnaryInterceptor(func(ctx context.Context, req interface{}, info *grpc.UnaryServerInfo, h grpc.UnaryHandler) (interface{}, error) {
+			e.calls.recGrpc(info.FullMethod, req)
+			return h(ctx, req)
+		}),
+		grpc.StreamInterceptor(func(srv interface{}, ss grpc.ServerStream, info *grpc.StreamServerInfo, h grpc.StreamHandler) error {
+			return h(srv, &recStream{ServerStream: ss, l: &e.calls, method: info.FullMethod})
+		}))
 	filer_pb.RegisterSeaweedFilerServer(e.filerSrv, e.FilerServer)
 	go e.filerSrv.Serve(glis)
 
@@ -275,6 +355,10 @@ func New(opt Options) *Env {
 	e.Store.Take()
 	return e
 }
+
+// TakeCalls returns the filer-facing calls (gRPC and HTTP, in arrival order)
+// recorded since the last TakeCalls and clears the log.
+func (e *Env) TakeCalls() []FilerCall { return e.calls.take() }
 
 func (e *Env) Close() {
 	e.FilerHTTP.Close()
@@ -397,7 +481,19 @@ func (e *Env) Do(method, target string, hdr map[string]string, body []byte) *Res
 	must(err)
 	req.RemoteAddr = "127.0.0.1:1"
 	rec := httptest.NewRecorder()
-	e.Router.ServeHTTP(rec, req)
+	panicked := false
+	func() {
+		// net/http's server recovers a handler panic and drops the connection
+		defer func() {
+			if x := recover(); x != nil {
+				panicked = true
+			}
+		}()
+		e.Router.ServeHTTP(rec, req)
+	}()
+	if panicked {
+		return &Resp{Status: 599, Header: http.Header{}, Body: []byte("handler panic")}
+	}
 	res := rec.Result()
 	b, _ := ioutil.ReadAll(res.Body)
 	return &Resp{Status: res.StatusCode, Header: res.Header, Body: b}
